@@ -33,6 +33,8 @@ class Parser(Emitter):
             if self.debug:
                 traceback.print_exc()
             error = str(formulaserror.from_message(e))
+        finally:
+            formulaserror.release_tracebacks()
 
         if isinstance(result, formulaserror.XLError):
             error = str(result)
